@@ -43,6 +43,14 @@ def units(tier):
     add("E start + X", [("X", "soon"), ("E", "start")])
     add("X start group-cancel", [("B", "soon"), ("X", "start")], env=("group",))
     add("E+B body-raise", [("E", "task"), ("B", "soon")], body="raise")
+    add("E+H (sibling in a shielded section when the failure happens)", [("E", "task"), ("H", "soon")], T=2)
+    add("E+H, group scope shielded", [("E", "task"), ("H", "soon")], T=2, tg_shield=True)
+    add("X+B body-raise, group scope shielded", [("X", "task"), ("B", "soon")], body="raise", tg_shield=True)
+    for kind in ("base", "falsy"):
+        add("E+X exc=%s" % kind, [("E", "task"), ("X", "soon")], exc=kind)
+        add("E+B body-raise exc=%s" % kind, [("E", "task"), ("B", "soon")], body="raise", exc=kind)
+        add("B+B body-raise exc=%s" % kind, [("B", "task"), ("B", "soon")], body="raise", exc=kind)
+        add("X start group-cancel exc=%s" % kind, [("B", "soon"), ("X", "start")], env=("group",), exc=kind)
     if not quick:
         add("C+C+E", [("C", "task"), ("C", "soon"), ("E", "task")], J=2)
         add("C host-native x2 eager", [("C", "task")], env=("host", "host"), J=2, eager=True)
@@ -63,6 +71,13 @@ def units(tier):
         for b3 in ("R", "E", "C"):
             us.append({"name": "three R+B+%s group-cancel T=2" % b3, "fn": tg_scn.scn,
                        "params": {"props": [PROP], "children": [("R", "task"), ("B", "soon"), (b3, "task")], "env": ("group",), "T": 2, "J": 1}, "budget_s": 1500})
+        for kind in ("base", "falsy"):
+            for b1 in ("E", "X", "C"):
+                for b2 in ("E", "X", "H"):
+                    for body in ("fall", "raise"):
+                        us.append({"name": "exc=%s %s+%s body=%s" % (kind, b1, b2, body), "fn": tg_scn.scn, "budget_s": 900,
+                                   "params": {"props": [PROP], "children": [(b1, "task"), (b2, "soon")], "body": body, "exc": kind, "T": 1, "J": 1,
+                                              "env": ("group",) if "E" not in (b1, b2) and body == "fall" else ()}})
         # every quick shape again with longer sleeps / more cycle offsets, and on the eager task factory
         base = [u for u in us if u["params"].get("T", 1) == 1 and not u["params"].get("eager")]
         for u in base:
